@@ -28,7 +28,7 @@ OPS = {
     'C16': ['call', 'clear', 'archive', 'management'],
     'C18': ['key', 'lookup', 'management'],
     'C08': ['call', 'clear', 'archive', 'management'],
-    'C12': ['call'],
+    'C12': ['call', 'key', 'rounding'],
 }
 
 
@@ -151,6 +151,8 @@ def _work(args):
                 obs += W.obligations_archive(case)
             if 'management' in ops:
                 obs += W.obligations_management(case)
+            if 'rounding' in ops:
+                obs += W.obligations_rounding(case)
         except Unsupported as e:
             out['unsupported'] = str(e)
             out['bounded'] = _bounded_fallback(modname, clsname, prop, tier)
@@ -482,3 +484,27 @@ def _known_history(v, findings):
             if st.get('A') is not None and any(k not in st['A'] for k in st['mem']):
                 return True
     return False
+
+
+def level_a_summary(prop, tier='quick'):
+    """Level-A obligations of `prop` over the twelve wrappers, for properties whose main check is bounded (C12):
+    -> {'obligations', 'discharged', 'failed': [(name, reason)], 'functions', 'ms', 'unsupported'}"""
+    results = run(prop, tier, 0)
+    names, funcs, unsupported, ms = {}, set(), [], 0.0
+    for res in results:
+        if res['error']:
+            unsupported.append('%s: crashed: %s' % (res['case'], res['error'][-200:]))
+            continue
+        if res['unsupported']:
+            unsupported.append('%s: %s' % (res['case'], res['unsupported']))
+            continue
+        for r in res['recs']:
+            ok = names.setdefault(r['name'], [True, ''])
+            funcs.add(r['func'])
+            ms += r['ms']
+            if r['res'] != 'unsat':
+                ok[0] = False
+                ok[1] = '%s on path %s (%s)' % (r['res'], r['path'], r['reason'])
+    return {'obligations': len(names), 'discharged': sum(1 for v in names.values() if v[0]),
+            'failed': [(n, v[1]) for n, v in names.items() if not v[0]], 'functions': sorted(funcs), 'ms': round(ms, 1),
+            'unsupported': unsupported}
